@@ -18,6 +18,7 @@ import (
 	algoparser "github.com/moorara/algo/parser"
 	"github.com/moorara/algo/parser/lr"
 
+	ebnflexer "github.com/gardenbed/emerge/internal/ebnf/lexer"
 	"github.com/gardenbed/emerge/internal/ebnf/parser"
 	"github.com/gardenbed/emerge/zz_verif/gen"
 	"github.com/gardenbed/emerge/zz_verif/simrt"
@@ -35,7 +36,7 @@ func (Engine) Meta() simrt.Meta {
 		Assumptions: []string{
 			"Go toolchain; the harness' stack replayer R-deriv (pop |body|, compare symbols, push head) and the layout engine's own positions are correct",
 			"production list and grammar are read from the working tree through an export overlay file and cross-checked against parser.G, not mirrored",
-			"inputs stay below one buffer half and end in a newline so that reader defects (C13) cannot leak into this verdict",
+			"small inputs stay below one buffer half; large inputs (several refills, > 1024 tokens) use a leading padding for which the input-computable signature of the dependency's double-reload defect (C13 known finding) does not hold; all end in a newline - so reader defects cannot leak into this verdict",
 		},
 		RealCode:    []string{"internal/ebnf/lexer", "internal/ebnf/parser (driver + embedded tables)", "moorara/algo lexer/input, list, parser/lr"},
 		Stubs:       []string{"token/production/evaluate callbacks (simulator-owned, failure injected at a chosen step)", "io.Reader (SimReader, full mode)"},
@@ -57,6 +58,14 @@ func (e Engine) Plan(tier string, seed uint64) []simrt.Case {
 	}
 	for f := range fixtures {
 		cs = append(cs, simrt.Case{Index: len(cs), Seed: simrt.Mix(seed, 1800, uint64(f)), Args: []int{f}, Label: fixtures[f]})
+	}
+	// large specifications: well over 1024 significant tokens, several buffer refills
+	nLarge := 6
+	if tier == "thorough" {
+		nLarge = 40
+	}
+	for i := 0; i < nLarge; i++ {
+		cs = append(cs, simrt.Case{Index: len(cs), Seed: simrt.Mix(seed, 18000, uint64(i)), Args: []int{-2}, Label: "large"})
 	}
 	return cs
 }
@@ -156,11 +165,44 @@ func (e Engine) Run(t *simrt.Tape, c simrt.Case, x *simrt.Ctx) *simrt.Result {
 			}
 		}
 	} else {
-		s := gen.GenSpec(t, gen.GenOpts{})
+		var s *gen.Spec
 		st := gen.Style{SepSeed: uint64(t.Draw(1 << 30)), FinalNL: 1, Tight: t.Chance(1, 4)}
+		if c.Args[0] == -2 {
+			s = gen.GenLargeSpec(t, 150+t.Draw(200))
+			if s == nil {
+				panic("large specification is not tokenizable (generator bug)")
+			}
+		} else {
+			s = gen.GenSpec(t, gen.GenOpts{})
+		}
 		lay := gen.Render(s, st)
 		if err := lay.Check(s); err != nil {
 			panic("layout self-check: " + err.Error())
+		}
+		if c.Args[0] == -2 {
+			// Multi-buffer input: choose a leading padding for which no lexeme other than the first
+			// starts at k*B-1, the input-computable signature of the dependency's double-reload
+			// defect (C13's known finding), so that reader defects cannot leak into this verdict.
+			B := ebnflexer.VerifBufferSize
+			ok := false
+			for pad := 0; pad < 64 && !ok; pad++ {
+				st.LeadPad = pad
+				lay = gen.Render(s, st)
+				if err := lay.Check(s); err != nil {
+					panic("layout self-check: " + err.Error())
+				}
+				ok = true
+				for _, l := range lay.Lexemes[1:] {
+					if (l.Start+1)%B == 0 {
+						ok = false
+						break
+					}
+				}
+			}
+			if !ok {
+				res.Skipped++
+				return res
+			}
 		}
 		text = lay.Text
 		for _, idx := range lay.Kept {
@@ -168,7 +210,7 @@ func (e Engine) Run(t *simrt.Tape, c simrt.Case, x *simrt.Ctx) *simrt.Result {
 			wantPos = append(wantPos, lay.TokPos[idx])
 		}
 	}
-	if len(text) >= 4000 && c.Args[0] < 0 {
+	if len(text) >= 4000 && c.Args[0] == -1 {
 		res.Skipped++
 		return res
 	}
